@@ -289,6 +289,28 @@ fn run_suite<S: ShortGroupSignatureScheme>(em: &mut Emitter, base: &mut Rng, sui
                 em.count("nothing-blinded:request-refused");
             }
         }
+        // D0b: the same request answered twice with different issuer-supplied claims: the two blind signatures must not share
+        // their randomised point (signatures sharing it combine into one on values the issuer never signed)
+        {
+            let mut k1 = kc.clone();
+            let mut k2 = kc.clone();
+            fresh_id(&mut k1, "d0b-1");
+            fresh_id(&mut k2, "d0b-2");
+            em.oracle_case(&format!("{} request-answered-twice {}", suite, k));
+            if let (Out::Ok(b1), Out::Ok(b2)) = (call(|| issuer.blind_sign_credential(&honest_req, &k1)), call(|| issuer.blind_sign_credential(&honest_req, &k2))) {
+                let (j1, j2) = (serde_json::to_value(&b1).unwrap_or_default(), serde_json::to_value(&b2).unwrap_or_default());
+                let mut l1 = vec![];
+                let mut l2 = vec![];
+                leaves(&j1["credential"]["signature"], &mut vec![], &mut l1);
+                leaves(&j2["credential"]["signature"], &mut vec![], &mut l2);
+                for ((p1, a), (_, b)) in l1.iter().zip(l2.iter()) {
+                    if leaf_kind(a) == LeafKind::G1 && a == b {
+                        em.violation("c16:blind-signer-randomness-repeats", format!("{}: two blind signatures on one request with different issuer-supplied claims share the point {}", suite, p1.join("/")), json!({"suite": suite, "leaf": p1}));
+                    }
+                }
+                em.count("request-answered-twice:compared");
+            }
+        }
         // D2: a label both blinded and supplied by the issuer (one known claim dropped to keep the count)
         {
             let mut kc2 = kc.clone();
